@@ -27,7 +27,7 @@ var c06Examples = []gram.ExampleSpec{
 func c06Opts(r *mon.RNG, i int) *gram.GenOpts {
 	prof := []int{gram.ProfStateful, gram.ProfDefault, gram.ProfLower, gram.ProfScanCfg}[i%4]
 	o := &gram.GenOpts{Profile: prof, MaxProds: 5, Budget: 12 + r.Intn(14), Depth: 2 + r.Intn(3), TokKinds: true, Unions: true,
-		SharePrefix: 5, CaptureBias: 5, SubBias: 4, AllowBang: true, NamesElided: i%8 == 7}
+		SharePrefix: 5, CaptureBias: 5, SubBias: 4, AllowBang: true, NamesElided: i%8 == 7, EOFRefs: true}
 	if o.NamesElided {
 		o.Profile = gram.ProfStateful // only this profile has elided token types a grammar can name
 	}
@@ -309,9 +309,51 @@ func c06FlatLexing(c *mon.Child) {
 	}
 }
 
+// c06MultilineG: tokens that span newlines and contain multi-byte text (block
+// comments, raw strings) precede the error, so the error's column depends on
+// how positions are advanced over such tokens.
+type c06MultilineG struct {
+	Items []string `( @Ident | @Str )*`
+}
+
+var c06MultilineLexer = lexer.MustSimple([]lexer.SimpleRule{
+	{Name: "Comment", Pattern: `/\*[^*]*\*/`}, {Name: "Str", Pattern: "`[^`]*`"}, {Name: "WS", Pattern: `[ \t\r\n]+`}, {Name: "Ident", Pattern: `[a-zé世]+`}, {Name: "Int", Pattern: `[0-9]+`}})
+
+func c06Multiline(c *mon.Child) {
+	p, err := participle.Build[c06MultilineG](participle.Lexer(c06MultilineLexer), participle.Elide("Comment", "WS"))
+	if err != nil {
+		c.Violation("", "multiline", "multi-line token grammar does not build: "+err.Error(), nil)
+		return
+	}
+	pieces := []string{"a", "é世", "/* x\né世 y */", "/* 1\n\n2 */", "`r\n世界 é`", "`x`", "\n", " ", "\r\n", "é", "/*é*/"}
+	enders := []string{"7", "$", "`unterminated", "/* open", "9 a", ""}
+	r := c.RNG("multiline")
+	for i := 0; i < c.N(3000, 30000); i++ {
+		key := fmt.Sprintf("ml%d", i)
+		if !c.Want(key) {
+			continue
+		}
+		var sb strings.Builder
+		for k := r.Range(1, 8); k > 0; k-- {
+			sb.WriteString(pieces[r.Intn(len(pieces))])
+			sb.WriteString(r.Pick(" ", "", " ", "\n"))
+		}
+		sb.WriteString(enders[r.Intn(len(enders))])
+		input := sb.String()
+		c.Begin(key, fmt.Sprintf("multi-line token grammar <- %q", input))
+		c06One(c, key, gram.WrapParser(p), "multi-line token grammar (Comment/Str tokens span newlines and hold multi-byte text)", input, []string{"m.txt", ""}[i%2], false, func() interface{} { return map[string]interface{}{"input": input} })
+		if strings.Contains(input, "\n") {
+			c.Nontrivial("ml:" + input)
+			c.Feature("errors_after_multiline_multibyte_tokens")
+		}
+		c.End(key)
+	}
+}
+
 func c06Child(c *mon.Child) {
 	if c.Batch == 0 {
 		c06FlatLexing(c)
+		c06Multiline(c)
 	}
 	// Part A: generated grammars x arbitrary bytes / soup / near-derivations
 	nInputs := c.N(60, 300)
